@@ -20,12 +20,12 @@ INVARIANTS = ("ActivesAreOutline", "Alternate", "Bracket", "AuxOwnership", "EndC
 # property -> (profile, sizes, what the programs concentrate on)
 PROFILES = {
     "C02": (("periods", "bids", "clocks", "inputs"), {"framers": 3}, "several framers with zero / multiple / non-multiple periods and period-changing bids"),
-    "C03": (("bids", "forest", "aux", "condaux", "clocks", "inputs", "raises"), {}, "stop/abort bids, keyboard interrupts at every tick boundary, actions raising at random points"),
+    "C03": (("bids", "forest", "aux", "condaux", "clocks", "inputs", "raises", "periods"), {}, "stop/abort bids, keyboard interrupts at every tick boundary, actions raising at random points"),
     "C04": (("bids", "periods", "clocks", "inputs", "guards", "slaves"), {"framers": 2}, "bids of every kind between active and inactive framers in all declaration orders; slave framers driven by fiats, failing starts"),
     "C05": (("forest", "condaux", "clocks", "inputs", "bids"), {}, "frame forests with primary-under overrides, transitions, conditional auxiliaries, stop/abort"),
     "C06": (("forest", "aux", "condaux", "clocks", "inputs", "bids", "done"), {}, "recorders in every context of every frame; transitions to self/ancestor/descendant/other subtree"),
     "C07": (gen.ALL, {}, "every modelled verb"),
-    "C08": (("guards", "forest", "aux", "inputs", "clocks", "done"), {}, "benter guards and auxiliaries' first-frame guards over inputs flipping at arbitrary ticks"),
+    "C08": (("guards", "forest", "aux", "inputs", "clocks", "done", "marks"), {}, "benter guards and auxiliaries' first-frame guards over inputs flipping at arbitrary ticks"),
     "C09": (("aux", "done", "forest", "clocks", "inputs"), {}, "plain auxiliaries at several levels, shared originals, done verbs and done conditions"),
     "C10": (("condaux", "done", "forest", "clocks", "inputs", "bids"), {}, "conditional auxiliaries completing at once / later / never, transitions leaving the main frame"),
     "C11": (("clocks", "forest", "periods"), {"framers": 1}, "timeout / repeat style conditions on elapsed and recurred for several tick periods"),
